@@ -23,8 +23,8 @@ func fan(c *core.Ctx, fn, dm *core.Fn) {
 	var ipipe, opipe types.Object
 	core.Inspect(body, func(n ast.Node) bool {
 		if as, ok := n.(*ast.AssignStmt); ok && len(as.Lhs) == 1 && len(as.Rhs) == 1 {
-			if call, ok := as.Rhs[0].(*ast.CallExpr); ok && core.IsFunc(core.CalleeFunc(info, call), pkgCommon, "", "NewRDBLoader") {
-				ipipe = core.ObjOf(info, as.Lhs[0])
+			if call, ok := as.Rhs[0].(*ast.CallExpr); ok && core.IsFunc(c07.CalleeF(info, call), pkgCommon, "", "NewRDBLoader") {
+				ipipe = c07.Obj(info, as.Lhs[0])
 			}
 		}
 		return true
@@ -41,7 +41,7 @@ func fan(c *core.Ctx, fn, dm *core.Fn) {
 				return false
 			}
 			stack = append(stack, n)
-			if call, ok := n.(*ast.CallExpr); ok && dm != nil && core.CalleeFunc(info, call) == dm.Obj {
+			if call, ok := n.(*ast.CallExpr); ok && dm != nil && c07.CalleeF(info, call) == dm.Obj {
 				var lits []*ast.FuncLit
 				for _, s := range stack {
 					if fl, ok := s.(*ast.FuncLit); ok {
@@ -66,7 +66,7 @@ func fan(c *core.Ctx, fn, dm *core.Fn) {
 	var helperCall *ast.CallExpr
 	if !find(body) {
 		for _, call := range core.Calls(body, info, func(*ast.CallExpr, types.Object) bool { return true }) {
-			h := c.FnOf(core.CalleeFunc(info, call))
+			h := c.FnOf(c07.CalleeF(info, call))
 			if h == nil || h.Decl.Body == nil || h.Pkg != fn.Pkg || h.Obj == fn.Obj || (dm != nil && h.Obj == dm.Obj) || !find(h.Decl.Body) {
 				continue
 			}
@@ -76,7 +76,7 @@ func fan(c *core.Ctx, fn, dm *core.Fn) {
 			for _, f := range h.Decl.Type.Params.List {
 				for _, nm := range f.Names {
 					if i < len(call.Args) {
-						if o := core.ObjOf(info, call.Args[i]); o != nil {
+						if o := c07.Obj(info, call.Args[i]); o != nil {
 							bind[info.Defs[nm]] = o
 						}
 					}
@@ -86,13 +86,38 @@ func fan(c *core.Ctx, fn, dm *core.Fn) {
 			break
 		}
 	}
+	// literals started as `go func(p ...) {...}(args)`: a parameter stands for its argument
+	if worker != nil {
+		core.InspectAll(body, func(n ast.Node) bool {
+			gs, ok := n.(*ast.GoStmt)
+			if !ok {
+				return true
+			}
+			fl, isLit := ast.Unparen(gs.Call.Fun).(*ast.FuncLit)
+			if !isLit || fl != worker && fl != sup {
+				return true
+			}
+			i := 0
+			for _, fld := range fl.Type.Params.List {
+				for _, nm := range fld.Names {
+					if i < len(gs.Call.Args) {
+						if o := c07.Obj(info, gs.Call.Args[i]); o != nil {
+							bind[info.Defs[nm]] = toDecode(o)
+						}
+					}
+					i++
+				}
+			}
+			return true
+		})
+	}
 	if ipipe == nil || worker == nil || len(dmCall.Args) != 2 {
 		c.Undecidedf("R4.worker", "decode", fn.Decl.Pos(), "expected NewRDBLoader and a worker literal (inside a supervising goroutine, in decode or in one helper it calls) calling decoderMain(in, out)")
 		return
 	}
-	opipeR := core.ObjOf(info, dmCall.Args[1]) // the output channel as the region names it
+	opipeR := c07.Obj(info, dmCall.Args[1]) // the output channel as the region names it
 	opipe = toDecode(opipeR)
-	c.Check("R4.worker", "decode/channels", dmCall.Pos(), toDecode(core.ObjOf(info, dmCall.Args[0])) == ipipe && opipe != nil && opipe != ipipe && c07.Within(identPos(opipe), body),
+	c.Check("R4.worker", "decode/channels", dmCall.Pos(), toDecode(c07.Obj(info, dmCall.Args[0])) == ipipe && opipe != nil && opipe != ipipe && c07.Within(identPos(opipe), body),
 		"every worker must consume the loader's channel and produce into the one output channel that the writer drains")
 	gw := cfgq.OfLit(c.Program, info, worker)
 	gs := cfgq.OfLit(c.Program, info, sup)
@@ -110,17 +135,10 @@ func fan(c *core.Ctx, fn, dm *core.Fn) {
 		return true
 	})
 	bound := func(f *ast.ForStmt) ast.Expr {
-		if f == nil || f.Cond == nil {
+		if f == nil {
 			return nil
 		}
-		b := pat.Expr("_i < _n").Match(info, f.Cond, nil)
-		if b == nil || f.Post == nil || f.Init == nil {
-			return nil
-		}
-		if _, ok := b["_i"].(*ast.Ident); ok {
-			return b["_n"].(ast.Expr)
-		}
-		return nil
+		return c07.LoopCount(info, f)
 	}
 	isDM := func(n ast.Node) bool {
 		for _, call := range cfgq.ExecCalls(n) {
@@ -139,7 +157,7 @@ func fan(c *core.Ctx, fn, dm *core.Fn) {
 	var await *ast.ForStmt
 	core.Inspect(sup, func(n ast.Node) bool {
 		if u, ok := n.(*ast.UnaryExpr); ok && u.Op == token.ARROW {
-			group = core.ObjOf(info, u.X)
+			group = c07.Obj(info, u.X)
 			for _, a := range core.PathTo(sup, u) {
 				if f, ok := a.(*ast.ForStmt); ok {
 					await = f
@@ -149,8 +167,8 @@ func fan(c *core.Ctx, fn, dm *core.Fn) {
 		return true
 	})
 	isWG := func(call *ast.CallExpr, method string) types.Object {
-		if f := core.CalleeFunc(info, call); core.IsFunc(f, "sync", "WaitGroup", method) {
-			return core.ObjOf(info, call.Fun.(*ast.SelectorExpr).X)
+		if f := c07.CalleeF(info, call); core.IsFunc(f, "sync", "WaitGroup", method) {
+			return c07.Obj(info, call.Fun.(*ast.SelectorExpr).X)
 		}
 		return nil
 	}
@@ -168,7 +186,9 @@ func fan(c *core.Ctx, fn, dm *core.Fn) {
 		switch {
 		case bs == nil || ba == nil:
 			c.Undecidedf("R4.bounds", "decode", sup.Pos(), "loop bounds not of the form `i < n`")
-		case pat.Same(info, bs, ba):
+		case !c07.SameCount(info, bs, ba) && !c07.DiffCount(info, bs, ba) && !(stableExpr(info, bs) && stableExpr(info, ba)):
+			c.Undecidedf("R4.bounds", "decode", sup.Pos(), "cannot compare the number of workers spawned (%s) with the number of tokens awaited (%s)", c.Src(bs), c.Src(ba))
+		case c07.SameCount(info, bs, ba):
 			c.Okf("R4.bounds", "decode", sup.Pos(), "workers spawned and tokens awaited are both bounded by `%s`", c.Src(bs))
 		default:
 			c.Failf("R4.bounds", "decode", await.Pos(), "%s workers are spawned but %s tokens are awaited: with fewer tokens the output channel is closed while workers still send (panic / lost lines), with more the run never ends", c.Src(bs), c.Src(ba))
@@ -177,7 +197,7 @@ func fan(c *core.Ctx, fn, dm *core.Fn) {
 		isRecv := func(n ast.Node) bool {
 			found := false
 			core.Inspect(n, func(m ast.Node) bool {
-				if u, ok := m.(*ast.UnaryExpr); ok && u.Op == token.ARROW && core.ObjOf(info, u.X) == group {
+				if u, ok := m.(*ast.UnaryExpr); ok && u.Op == token.ARROW && c07.Obj(info, u.X) == group {
 					found = true
 				}
 				return !found
@@ -194,11 +214,11 @@ func fan(c *core.Ctx, fn, dm *core.Fn) {
 			post = ah
 		}
 		c.Check("R4.token", "decode/await-each", await.Pos(), !c07.ReachBlock(gs, cfgq.Point{B: ab}, false, isRecv, post), "every iteration of the await loop must receive one token")
-		direct = func(n ast.Node) bool { s, ok := n.(*ast.SendStmt); return ok && core.ObjOf(info, s.Chan) == group }
+		direct = func(n ast.Node) bool { s, ok := n.(*ast.SendStmt); return ok && c07.Obj(info, s.Chan) == group }
 		contains = func(root ast.Node) bool {
 			found := false
 			core.InspectAll(root, func(m ast.Node) bool {
-				if s, ok := m.(*ast.SendStmt); ok && core.ObjOf(info, s.Chan) == group {
+				if s, ok := m.(*ast.SendStmt); ok && c07.Obj(info, s.Chan) == group {
 					found = true
 				}
 				return !found
@@ -330,7 +350,7 @@ func fan(c *core.Ctx, fn, dm *core.Fn) {
 				if id, ok := ast.Unparen(st.X).(*ast.Ident); ok && info.Uses[id] == opipe {
 					ncons++
 					used[id] = true
-					wl, loop, loopBody, msg = fl, st, st.Body, core.ObjOf(info, st.Key)
+					wl, loop, loopBody, msg = fl, st, st.Body, c07.Obj(info, st.Key)
 				}
 			case *ast.AssignStmt:
 				if len(st.Lhs) != 2 || len(st.Rhs) != 1 {
@@ -357,14 +377,21 @@ func fan(c *core.Ctx, fn, dm *core.Fn) {
 					ncons++
 					used[id] = true
 					wl, loop, loopBody, recvAs = fl, f, f.Body, st
-					msg, okVar = core.ObjOf(info, st.Lhs[0]), core.ObjOf(info, st.Lhs[1])
+					msg, okVar = c07.Obj(info, st.Lhs[0]), c07.Obj(info, st.Lhs[1])
 				}
 			}
 			return true
 		})
 	}
+	var supGo ast.Node = sup // the go statement that starts the supervisor (its arguments hand the channel over)
 	core.InspectAll(body, func(n ast.Node) bool {
-		if id, ok := n.(*ast.Ident); ok && info.Uses[id] == opipe && !used[id] && !c07.Within(id, sup) && !(helperCall != nil && c07.Within(id, helperCall)) {
+		if gs, ok := n.(*ast.GoStmt); ok && ast.Unparen(gs.Call.Fun) == ast.Expr(sup) {
+			supGo = gs
+		}
+		return true
+	})
+	core.InspectAll(body, func(n ast.Node) bool {
+		if id, ok := n.(*ast.Ident); ok && info.Uses[id] == opipe && !used[id] && !c07.Within(id, supGo) && !(helperCall != nil && c07.Within(id, helperCall)) {
 			if call, isCall := parentCall(body, id); !isCall || !isLenCap(info, call) {
 				otherBad++
 			}
@@ -377,17 +404,67 @@ func fan(c *core.Ctx, fn, dm *core.Fn) {
 	}
 	gl := cfgq.OfLit(c.Program, info, wl)
 	rs := loop // position / extent of the message loop
+	// a write of the message: a library call that is handed the message (possibly converted) together with a writer,
+	// as its receiver (writer.WriteString(s), writer.Write([]byte(s))) or as an argument (io.WriteString(writer, s),
+	// fmt.Fprint(writer, s))
+	isMsg := func(e ast.Expr) bool { return c07.Obj(info, c07.Strip(info, e)) == msg }
+	isWriter := func(t types.Type) bool {
+		if t == nil {
+			return false
+		}
+		ms := types.NewMethodSet(t)
+		for i := 0; i < ms.Len(); i++ {
+			if m := ms.At(i).Obj(); m.Name() == "Write" {
+				if sg, isS := m.Type().(*types.Signature); isS && sg.Params().Len() == 1 && sg.Results().Len() == 2 {
+					return true
+				}
+			}
+		}
+		return false
+	}
+	writeCall := func(call *ast.CallExpr) bool {
+		f := c07.CalleeF(info, call)
+		if f == nil || f.Pkg() == nil || strings.HasPrefix(f.Pkg().Path(), core.Module) {
+			return false
+		}
+		hasMsg, hasW := false, false
+		for _, a := range call.Args {
+			hasMsg = hasMsg || isMsg(a)
+			hasW = hasW || !isMsg(a) && isWriter(info.TypeOf(a))
+		}
+		if sel, isSel := ast.Unparen(call.Fun).(*ast.SelectorExpr); isSel && recvType(f) != nil {
+			hasW = hasW || strings.HasPrefix(f.Name(), "Write") && isWriter(info.TypeOf(sel.X))
+		}
+		return hasMsg && hasW
+	}
 	isWrite := func(n ast.Node) bool {
 		for _, call := range cfgq.ExecCalls(n) {
-			if f := core.CalleeFunc(info, call); f != nil && f.Pkg() != nil && f.Pkg().Path() == "bufio" && strings.HasPrefix(f.Name(), "Write") && len(call.Args) == 1 && core.ObjOf(info, call.Args[0]) == msg {
+			if writeCall(call) {
 				return true
+			}
+		}
+		return false
+	}
+	// the message handed to some other function: it may be written there
+	handsOver := func(n ast.Node) bool {
+		for _, call := range cfgq.ExecCalls(n) {
+			if _, isB := core.Callee(info, call).(*types.Builtin); isB || writeCall(call) {
+				continue
+			}
+			if tv, isT := info.Types[call.Fun]; isT && tv.IsType() {
+				continue
+			}
+			for _, a := range call.Args {
+				if isMsg(a) {
+					return true
+				}
 			}
 		}
 		return false
 	}
 	isFlush := func(n ast.Node) bool {
 		for _, call := range cfgq.ExecCalls(n) {
-			f := core.CalleeFunc(info, call)
+			f := c07.CalleeF(info, call)
 			if core.IsFunc(f, pkgCommon, "", "FlushWriter") || f != nil && f.Pkg() != nil && f.Pkg().Path() == "bufio" && f.Name() == "Flush" {
 				return true
 			}
@@ -405,8 +482,12 @@ func fan(c *core.Ctx, fn, dm *core.Fn) {
 		}
 		iter = cfgq.Point{B: p.B, I: p.I + 1}
 		closed = func(b *cfg.Block, i int) bool {
-			return c07.EdgeFact(gl, b, i, func(f cfgq.Fact) bool { return !f.Val && core.ObjOf(info, f.Expr) == okVar })
+			return c07.EdgeFact(gl, b, i, func(f cfgq.Fact) bool { return !f.Val && c07.Obj(info, f.Expr) == okVar })
 		}
+	}
+	if c07.ReachBlock2(gl, iter, isWrite, closed, lh) && !c07.ReachBlock2(gl, iter, func(n ast.Node) bool { return isWrite(n) || handsOver(n) }, closed, lh) {
+		c.Undecidedf("R4.writer", "decode/writes-every-message", rs.Pos(), "the message is handed to a function that is not recognised as a write to the output file")
+		return
 	}
 	c.Check("R4.writer", "decode/writes-every-message", rs.Pos(), !c07.ReachBlock2(gl, iter, isWrite, closed, lh), "every message taken from the output channel must be written to the file: otherwise the lines of that key are omitted")
 	var wTwice, wFlush []string
@@ -418,7 +499,7 @@ func fan(c *core.Ctx, fn, dm *core.Fn) {
 			wFlush = gl.Path(cfgq.Query{From: p, After: true, Avoid: isFlush, TargetExit: c07.NormalExit})
 		}
 		for _, call := range cfgq.ExecCalls(p.Node()) {
-			if f := core.CalleeFunc(info, call); f != nil && f.Pkg() != nil && f.Pkg().Path() == "bufio" && strings.HasPrefix(f.Name(), "Write") {
+			if writeCall(call) {
 				c07.ErrCheck(c, gl, info, wl, call, c07.ErrSpec{Rule: "R4.writer", Key: "decode/write-error", Consequence: "a failed write must stop the run, otherwise lines are silently missing from the output file"})
 			}
 		}
@@ -430,7 +511,7 @@ func fan(c *core.Ctx, fn, dm *core.Fn) {
 	core.InspectAll(wl, func(n ast.Node) bool {
 		if call, ok := n.(*ast.CallExpr); ok {
 			if b, ok := core.Callee(info, call).(*types.Builtin); ok && b.Name() == "close" && len(call.Args) == 1 {
-				wait = core.ObjOf(info, call.Args[0])
+				wait = c07.Obj(info, call.Args[0])
 			}
 		}
 		return true
@@ -438,7 +519,7 @@ func fan(c *core.Ctx, fn, dm *core.Fn) {
 	if wait == nil { // not closed by the writer: take the channel decode itself waits on
 		core.Inspect(body, func(n ast.Node) bool {
 			if u, ok := n.(*ast.UnaryExpr); ok && u.Op == token.ARROW {
-				if o := core.ObjOf(info, u.X); o != nil && c07.Within(identPos(o), body) {
+				if o := c07.Obj(info, u.X); o != nil && c07.Within(identPos(o), body) {
 					wait = o
 				}
 			}
@@ -489,4 +570,24 @@ func parentCall(root ast.Node, id ast.Node) (*ast.CallExpr, bool) {
 func isLenCap(info *types.Info, call *ast.CallExpr) bool {
 	b, ok := core.Callee(info, call).(*types.Builtin)
 	return ok && (b.Name() == "len" || b.Name() == "cap")
+}
+
+// stableExpr: constant, identifier, field-selector chain or len/cap of one (two such expressions that are not the
+// same denote different counts).
+func stableExpr(info *types.Info, e ast.Expr) bool {
+	e = c07.Through(info, e)
+	if _, ok := core.IntConst(info, e); ok {
+		return true
+	}
+	switch x := e.(type) {
+	case *ast.Ident:
+		return true
+	case *ast.SelectorExpr:
+		return stableExpr(info, x.X)
+	case *ast.CallExpr:
+		if b, ok := core.Callee(info, x).(*types.Builtin); ok && (b.Name() == "len" || b.Name() == "cap") && len(x.Args) == 1 {
+			return stableExpr(info, x.Args[0])
+		}
+	}
+	return false
 }
